@@ -396,6 +396,32 @@ def run(repo, rep, tier):
     rep.check('wiring', '-P evaluates the policy against the same banner and KEXINIT', ok, ec[0] if ec else au, 'evaluate_policy call changed')
     pe = [n for n in walk_no_nested(ep) if isinstance(n, ast.Call) and unparse(n.func) == 'aconf.policy.evaluate']
     rep.check('wiring', 'evaluate_policy forwards them to Policy.evaluate', len(pe) == 1 and [unparse(a) for a in pe[0].args] == ['banner', 'kex'], pe[0] if pe else ep, 'Policy.evaluate call changed')
+    # the measurements a policy covers (host-key / CA sizes: HostKeyTest.run; group-exchange modulus sizes: GEXTest.run) are taken before the policy is
+    # written or evaluated, on every path of a server audit: a must-pass-through rule on audit()'s CFG.  Branches that are taken only by a client audit
+    # (nothing to probe) are not followed; paths through the explicit-test modes return before they reach the policy code.
+    from sa.cfg import CFG as _CFG5, describe_path as _dp5
+    from sa.logic import implied_atoms as _ia5
+    acfg = _CFG5(au, exc_edges=False)
+    client_only = []
+    for n in acfg.nodes:
+        if n.kind == 'branch' and isinstance(n.stmt, (ast.If, ast.While)):
+            for atom, truth in _ia5([(n.stmt.test, n.label == 'T', 'if')]):
+                ta = unparse(atom)
+                if (ta in ('aconf.client_audit', 'aconf.client_audit is True') and truth) or (ta in ('aconf.client_audit is False', 'not aconf.client_audit') and not truth):
+                    client_only.append(n)
+    rep.floor('wiring', 'client-audit branches in audit()', len(client_only), 1)
+    for probe in ('HostKeyTest.run', 'GEXTest.run'):
+        gates = acfg.stmts_matching(lambda st, probe=probe: not isinstance(st, (ast.If, ast.While, ast.For, ast.Try, ast.With)) and any(isinstance(x, ast.Call) and call_name(x) == probe for x in ast.walk(st)))
+        rep.floor('wiring', '%s call sites in audit()' % probe, len(gates), 1)
+        for user, what in (('evaluate_policy', 'a policy is evaluated (-P)'), ('make_policy', 'a policy is written (-M)')):
+            targets = acfg.stmts_matching(lambda st, user=user: not isinstance(st, (ast.If, ast.While, ast.For, ast.Try, ast.With)) and any(isinstance(x, ast.Call) and call_name(x) == user for x in ast.walk(st)))
+            rep.floor('wiring', '%s call sites in audit()' % user, len(targets), 1)
+            pth = acfg.find_path([acfg.entry], targets, avoid=list(gates) + client_only)
+            rep.check('wiring', 'in a server audit %s runs on every path before %s' % (probe, what), pth is None, targets[0].stmt,
+                      'a server audit can reach %s() without %s: the %s the policy covers are not measured, so %s' % (
+                          user, probe, 'group-exchange modulus sizes' if probe == 'GEXTest.run' else 'host-key and CA key sizes',
+                          'a peer that differs only in that size passes the policy' if user == 'evaluate_policy' else 'the written policy does not pin them'),
+                      witness=_dp5(pth) if pth else None, stmt='%s before %s' % (probe, user))
     pcl = repo.func('ssh_audit', 'process_commandline')
     t = unparse(pcl)
     rep.check('wiring', 'client/server policy mismatch is rejected at the command line', 'aconf.client_audit and aconf.policy.is_server_policy()' in t and 'aconf.client_audit is False and aconf.policy.is_server_policy() is False' in t, pcl, 'role mismatch checks changed')
